@@ -8,7 +8,9 @@ constant: placeholders and keywords agree, and `code`/`locator` are string liter
 RequestError construction site (C18.c); request-derived values reach HTML pages only through
 escape_html, which removes both quote characters (C18.d); plain-text fall-backs are
 text/plain (C18.e); image errors carry the requested content type and a default size (C18.f);
-every literal status code has a reason phrase (C18.g)."""
+every literal status code has a reason phrase (C18.g).
+Added in round 4: no client-visible error is built from the text of a caught I/O level exception
+except through the helper that strips file references (C18.o)."""
 import ast
 import re
 
